@@ -190,14 +190,17 @@ fn selftest_main(what: &str, self_bin: &str) -> i32 {
     use std::process::Command;
     match what {
         "determinism" => {
-            let seed = sup::seed_from_env();
+            let seed0 = sup::seed_from_env();
             let mut bad = 0;
             let mut compared = 0u64;
-            for prop in ["C06", "C07", "C08", "C17", "C18"] {
+            for (seed, prop) in [seed0, seed0.wrapping_add(1_000_003)]
+                .iter()
+                .flat_map(|s| ["C06", "C07", "C08", "C17", "C18"].iter().map(move |p| (*s, *p)))
+            {
                 let n: u64 = match prop {
                     "C17" => 24,
                     "C18" => 12,
-                    _ => 2000,
+                    _ => 3000,
                 };
                 // C17: also a slice of the multi-fault index space
                 let ranges: Vec<(u64, u64)> = if prop == "C17" {
@@ -266,7 +269,7 @@ fn selftest_main(what: &str, self_bin: &str) -> i32 {
                 }
             }
             println!(
-                "selftest determinism: {} run digests compared across W=1/4/16, mismatching batches: {}",
+                "selftest determinism: {} run digests (2 master seeds) compared across W=1/4/16, mismatching batches: {}",
                 compared, bad
             );
             if bad > 0 {
@@ -625,6 +628,10 @@ fn check_main(
     if prop == "C08" && probes.get("oversize_claim_rejected").and_then(|v| v.as_u64()).unwrap_or(0) == 0 {
         warnings.push(J::s("reach probe 'oversize_claim_rejected' stuck at 0"));
     }
+    let reach_warnings_text: Vec<String> = warnings
+        .iter()
+        .filter_map(|w| w.as_str().map(|s| s.to_string()))
+        .collect();
     let runs_per_hour = if wall > 0.0 {
         (report.evaluations as f64 / wall * 3600.0) as u64
     } else {
@@ -633,6 +640,28 @@ fn check_main(
     let mut samples = report.samples.clone();
     if samples.is_empty() {
         samples.push(J::s("no sample recorded (no run completed)"));
+    }
+    // op kind x outcome grid of stream-side calls (C07/C08/C17)
+    let op_names = [
+        "open", "segments", "section_headers", "section_headers_with_strtab",
+        "section_header_by_name", "section_data", "section_data_as_strtab",
+        "section_data_as_rels", "section_data_as_relas", "section_data_as_notes",
+        "symbol_table", "dynamic_symbol_table", "dynamic", "symbol_version_table",
+        "segment_data_as_notes", "segment_data", "find_common_data",
+    ];
+    let tag_names = ["Ok", "Err", "Panicked(call)", "Panicked(drain)", "StepCap"];
+    let mut grid = J::obj();
+    for (i, row) in report.op_grid.iter().enumerate() {
+        if row.iter().all(|v| *v == 0) {
+            continue;
+        }
+        let mut r = J::obj();
+        for (k, v) in row.iter().enumerate() {
+            if *v > 0 {
+                r.set(tag_names[k], J::u(*v));
+            }
+        }
+        grid.set(op_names[i], r);
     }
     let coverage = J::obj()
         .with("evaluations", J::u(report.evaluations))
@@ -659,6 +688,7 @@ fn check_main(
         .with("probes", probes)
         .with("counters", counters)
         .with("maxima", maxima)
+        .with("stream_calls_by_op_and_outcome", grid)
         .with("reach_warnings", J::Arr(warnings))
         .with("inconclusive", J::Arr(inconclusive.clone()))
         .with("known_findings_matched", J::Arr(res.known.iter().map(|s| J::s(s)).collect()))
@@ -707,6 +737,12 @@ fn check_main(
     }
     if report.evaluations == 0 {
         eprintln!("harness error: nothing was evaluated");
+        return 2;
+    }
+    if std::env::var("ELFSIM_FAIL_ON_REACH_WARNING").is_ok() && !reach_warnings_text.is_empty() {
+        for w in reach_warnings_text {
+            eprintln!("reach: {}", w);
+        }
         return 2;
     }
     0
